@@ -7,6 +7,7 @@ build(name, sig, kind, rs) -> (args: dict name -> value) or None when no builder
   signed  symmetric signed float, NONZERO diagonal           int   symmetric binary int64, NONZERO diagonal
   bool    symmetric dtype=bool, empty diagonal               booldiag  symmetric dtype=bool, NONZERO diagonal
   disc    symmetric weighted float, two components (disconnected), empty diagonal
+  naninf  symmetric weighted float with NaN and +inf entries (off and on the diagonal)
 Parameter roles: distance-matrix parameters (`D`) of the kinds bool / booldiag / disc are distance matrices of a
 disconnected graph (inf between the components, 0 on the diagonal); partition parameters get arbitrary labels.
 flag_space(func) enumerates the boolean / small-enum keyword flags of a function from its signature defaults and the
@@ -17,12 +18,19 @@ import os, tempfile, inspect
 import numpy as np
 
 N = 6
-KINDS = ('und', 'bin', 'dir', 'wdiag', 'signed', 'int', 'bool', 'booldiag', 'disc')
+KINDS = ('und', 'bin', 'dir', 'wdiag', 'signed', 'int', 'bool', 'booldiag', 'disc', 'naninf')
 
 
 def mat(kind, rs, n=N, dens=0.6):
     mask = rs.rand(n, n) < dens
     w = np.floor(rs.rand(n, n) * 9) + 1.0
+    if kind == 'naninf':
+        A = mat('und', rs, n, dens)
+        A[0, 2] = A[2, 0] = np.nan
+        A[1, 4] = A[4, 1] = np.inf
+        A[3, 3] = np.nan
+        A[5, 5] = np.inf
+        return A
     if kind == 'disc':
         h = n // 2
         mask = np.triu(mask, 1)
@@ -71,13 +79,20 @@ def labels(kind, rs, n=N):
     ci = pool[np.sort(rs.randint(0, 3, size=n))]
     ci[0], ci[-1] = pool[0], pool[1]
     rs.shuffle(ci)
-    return ci.astype(np.int64) if kind in ('int', 'bin', 'dir', 'bool', 'booldiag') else ci.astype(float)
+    ci = ci.astype(np.int64) if kind in ('int', 'bin', 'dir', 'bool', 'booldiag') else ci.astype(float)
+    if kind == 'naninf':
+        ci[1] = np.nan
+    return ci
 
 
 def distmat(kind, rs, n=N):
     xyz = rs.rand(n, 3) * 10
     D = np.sqrt(((xyz[:, None, :] - xyz[None, :, :]) ** 2).sum(-1))
     D = np.round(D * 4) / 4 + (1 - np.eye(n)) * 0.25
+    if kind == 'naninf':
+        D[0, 2] = D[2, 0] = np.nan
+        D[1, 4] = D[4, 1] = np.inf
+        return D
     if kind in ('bool', 'booldiag', 'disc'):      # distances in a graph with two components
         h = n // 2
         D[:h, h:] = np.inf
@@ -136,9 +151,19 @@ def _override(name, kind, rs):
     if name == 'find_motif34':
         return {'m': 3, 'n': 3}
     if name == 'findpaths':
-        return {'CIJ': mat(kind, rs, dens=0.3), 'qmax': 3, 'sources': np.array([0, 1])}
+        return {'CIJ': mat(kind, rs, dens=0.3), 'qmax': 1, 'sources': np.array([0, 1])}    # qmax >= 2 dies in a progress print
+    if name == 'logtransform':
+        W = mat(kind, rs)
+        if W.dtype.kind == 'f':
+            W = (np.abs(np.nan_to_num(W, nan=1.0, posinf=2.0)) + 1.0) / 12.0      # every weight in (0, 1]
+        return {'W': W}
+    if name == 'participation_coef_sparse':
+        import scipy.sparse as sp
+        return {'W': sp.csr_matrix(np.nan_to_num(mat(kind, rs).astype(float), nan=0.0, posinf=0.0)), 'ci': labels('int', rs)}
+    if name == 'reorder_mod':
+        return {'A': mat(kind, rs), 'ci': np.array([1, 1, 2, 2, 3, 3])}
     if name == 'ls2ci':
-        return {'ls': [[1, 2, 3], [4, 5, 6]]}
+        return {'ls': [[0, 1, 2], [3, 4, 5]]}
     if name == 'grid_communities':
         return {'c': labels(kind, rs)}
     if name == 'get_rng':
@@ -148,11 +173,11 @@ def _override(name, kind, rs):
     if name in ('makerandCIJ_dir', 'makerandCIJ_und'):
         return {'n': 7, 'k': 9}
     if name == 'makeringlatticeCIJ':
-        return {'n': 7, 'k': 14}
+        return {'n': 7, 'k': 10}          # 14 band cells > k: the excess is removed at random
     if name == 'maketoeplitzCIJ':
         return {'n': 7, 'k': 10, 's': 3.0}
     if name == 'makeevenCIJ':
-        return {'n': 8, 'k': 14, 'sz_cl': 2}
+        return {'n': 8, 'k': 30, 'sz_cl': 2}      # 24 cluster cells < k: the rest is placed at random
     if name == 'makefractalCIJ':
         return {'mx_lvl': 3, 'E': 2.0, 'sz_cl': 2}
     if name == 'makerandCIJdegreesfixed':
